@@ -599,6 +599,12 @@ func genScenario(r *vh.Rng, variant string, sidCounter *int) scenario {
 	if r.Chance(35) {
 		cols = append(cols, vh.Pick(r, v1ColPool))
 	}
+	// a collection id that walks to another tenant's collection if any layer joins / cleans paths
+	// (keys "user/collection", shard directories): never a collection of the requesting user
+	if r.Chance(30) {
+		v, vc := vh.Pick(r, users), vh.Pick(r, cols[:3])
+		cols = append(cols, vh.Pick(r, []string{"../" + v + "/" + vc, "x/../../" + v + "/" + vc, "./../" + v + "/" + vc, "..\\" + v + "\\" + vc}))
+	}
 	n := 18 + r.Intn(30)
 	type ck struct{ u, c string }
 	have := map[ck]map[int]bool{}
